@@ -105,6 +105,17 @@ def c04_counts_and_wrf(kw):
             return "weighted-rf-not-L1-of-length-differences"
         if treecompare.weighted_robinson_foulds_distance(t2, t1) != got:
             return "weighted-rf-asymmetric"
+        # both encodings are current now: saying so must not change the value, however often it is asked
+        for _i in range(2):
+            if treecompare.weighted_robinson_foulds_distance(t1, t2, is_bipartitions_updated=True) != got:
+                return "weighted-rf-differs-with-current-encodings-declared"
+        if treecompare.weighted_robinson_foulds_distance(t2, t1, is_bipartitions_updated=True) != got:
+            return "weighted-rf-differs-with-current-encodings-declared"
+        # a tree against itself (the trivial re-drawing)
+        if treecompare.weighted_robinson_foulds_distance(t1, t1) != 0:
+            return "weighted-rf-of-a-tree-with-itself-not-zero"
+        if treecompare.symmetric_difference(t2, t2) != 0:
+            return "symmetric-difference-of-a-tree-with-itself-not-zero"
     else:
         if treecompare.unweighted_robinson_foulds_distance(t1, t2) != len(only1) + len(only2):
             return "unweighted-rf-wrong"
@@ -227,7 +238,7 @@ def _leaves(v):
     return sum(1 for i in range(len(v) + 1) if i not in v)
 
 
-BUDGET = dict(quick=200, thorough=1500)
+BUDGET = dict(quick=200, thorough=1000)
 
 
 def harnesses(tier):
